@@ -21,8 +21,9 @@ RULES = {
     'R7': 'the format scan never steps over the format\'s terminator: the step that follows a directive is taken only if the character it steps over is not NUL',
     'R8': 'the formatted line is terminated at its write index: the terminating NUL is stored at output[idx] (not at an earlier position that later stores can overwrite) on every path',
     'R9': 'a width is whatever number the format gives (widths 0..large): the value handed to _strcpy_cutoff as the field width comes from a conversion that saturates (strtoul / strtoull), not from atoi / atol / strtol, whose result for a width beyond INT_MAX wraps - "%4294967301b" would cut the message to 5 characters',
+    'R10': 'no state is carried from one directive to the next (= C14.R4, on the two line formatters): every local a directive sets (alignment flag, width) is set again before it is read in the next pass of the directive loop',
 }
-FLOORS = {'R1': 14, 'R2': 6, 'R3': 3, 'R4': 3, 'R5': 4, 'R6': 4, 'R7': 2, 'R8': 1, 'R9': 2}
+FLOORS = {'R10': 2, 'R1': 14, 'R2': 6, 'R3': 3, 'R4': 3, 'R5': 4, 'R6': 4, 'R7': 2, 'R8': 1, 'R9': 2}
 
 MLL = 'max_line_length'      # canonical term of qb_log_target.max_line_length (engine.bounds.CANON_FIELDS)
 
@@ -107,6 +108,18 @@ def report(ctx, an, fname, rule_of=None):
 
 
 def run(ctx):
+    _run(ctx)
+    r10(ctx)
+
+
+def r10(ctx):
+    from rules import c14
+    prog = ctx.prog
+    c14.r4(ctx, prog.fn('qb_log_target_format'), prog.fn('qb_log_target_format_static'), rule='R10',
+           example='a "-" flag or a width also applies to the directive after it: "%-8N|%8P" right-aligns the second field too')
+
+
+def _run(ctx):
     prog = ctx.prog
     lo, hi = line_limit_invariant(ctx)
     ctx.note('line limit invariant: %s <= max_line_length <= %s' % (lo, hi))
